@@ -718,6 +718,24 @@ func checkRouting(c *Ctx) {
 		// the waiter exists before anybody can answer: the task's channel is entered into the task cache
 		// (under the task's own id) before the request leaves through Send/Broadcast — a collector that
 		// answers from inside its Request* call finds no waiter otherwise and the report is dropped
+		// …and the channel handed to the waiter is open: adding a task never removes it again (RemoveTask closes
+		// the channel; the waiters read `msg := <-ch; msg.Msg…` and a receive from a closed channel yields nil)
+		{
+			key := "AddTask:hands-out-an-open-channel"
+			closes := func(in ssa.Instruction) bool {
+				switch in.(type) {
+				case *ssa.Call, *ssa.Defer, *ssa.Go:
+				default:
+					return false
+				}
+				return calleeID(in) == "builtin.close" || callName(in) == "RemoveTask"
+			}
+			if mayDo(f, closes) {
+				c.Bad(rule, key, c.Pos(f.Pos()), "AddTask can close the channel it returns (a close, or RemoveTask, is reachable inside it): the waiter's first receive yields a nil message, which it dereferences")
+			} else {
+				c.OK(rule, key, c.Pos(f.Pos()), "no close and no RemoveTask reachable from AddTask")
+			}
+		}
 		key := "AddTask:registered-before-sent"
 		regs := findSteps(f, func(cl *ssa.Call) bool {
 			return callName(cl) == "Add" && callRecv(cl) != nil && backSlice(callRecv(cl)).hasField(pkgFractal+".LocalSuperior", "taskCache")
